@@ -351,6 +351,39 @@ def best_guard(tree):
   return False
 
 
+def propose_before_bookkeeping(tree):
+  """In create_trial the (single) call of the proposal callback `dna_fn()` — which may raise
+  StopIteration or any error of the algorithm — happens before every write to the study's state."""
+  try:
+    fn = common.find_func(common.find_class(tree, '_InMemoryResult'), 'create_trial')
+  except TranslatorError:
+    return False
+  if len(fn.args.args) < 2:
+    return False
+  cb = fn.args.args[1].arg
+  simple = (ast.Assign, ast.AugAssign, ast.AnnAssign, ast.Expr, ast.Return, ast.Delete)
+  stmts = [n for n in ast.walk(fn) if isinstance(n, simple)]
+  holders = [st for st in stmts
+             if any(isinstance(c, ast.Call) and isinstance(c.func, ast.Name) and c.func.id == cb
+                    for c in ast.walk(st))]
+  if len(holders) != 1:
+    return False
+  call_end = holders[0].end_lineno
+  for st in stmts:
+    if st is holders[0]:
+      continue
+    writes = False
+    if isinstance(st, (ast.Assign, ast.AugAssign, ast.AnnAssign)):
+      targets = st.targets if isinstance(st, ast.Assign) else [st.target]
+      writes = any(ast.unparse(t).startswith('self.') for t in targets)
+    elif isinstance(st, ast.Expr) and isinstance(st.value, ast.Call):
+      f = ast.unparse(st.value.func)
+      writes = f.startswith('self._') and f.count('.') >= 2       # self._x.append(...) etc.
+    if writes and st.lineno <= call_end:
+      return False
+  return True
+
+
 def evolution_flags(tree, mod_locks):
   cls = common.find_class(tree, 'Evolution')
   lock_kind = instance_lock(cls, '_setup')
@@ -452,6 +485,7 @@ def extract(strict=True):
           protected(g('done.feedback'), ('study',)) or protected(g('bf.call'), ('study',)))),
       'evolutionProposeAtomic': evo['_propose']['atomic'],
       'evolutionFeedbackAtomic': evo['_feedback']['atomic'],
+      'proposeBeforeBookkeeping': propose_before_bookkeeping(trees[LB]),
   }
   # A region whose only callers (verified by check_links) call it inside the study lock is atomic
   # even if its own `with` is narrowed.
@@ -516,7 +550,8 @@ def changed_functions(info):
 
 FLAG_ORDER = ['getOrCreateAtomic', 'algoSetupAtomic', 'nextReuseAtomic', 'createTrialAtomic',
               'completeTrialAtomic', 'doneCheckAndSetAtomic', 'skipCheckAndSetAtomic', 'addMeasurementAtomic',
-              'generatorCountersAtomic', 'evolutionProposeAtomic', 'evolutionFeedbackAtomic']
+              'generatorCountersAtomic', 'evolutionProposeAtomic', 'evolutionFeedbackAtomic',
+              'proposeBeforeBookkeeping']
 
 
 def run():
